@@ -699,15 +699,15 @@ func setMatchStringBasedOperators(r *RulesBasedSamplerCondition, condition strin
 	switch condition {
 	case StartsWith:
 		r.Matches = func(spanValue any, exists bool) bool {
-			return strings.HasPrefix(convertToString(spanValue), conditionValue)
+			return exists && strings.HasPrefix(convertToString(spanValue), conditionValue)
 		}
 	case Contains:
 		r.Matches = func(spanValue any, exists bool) bool {
-			return strings.Contains(convertToString(spanValue), conditionValue)
+			return exists && strings.Contains(convertToString(spanValue), conditionValue)
 		}
 	case DoesNotContain:
 		r.Matches = func(spanValue any, exists bool) bool {
-			return !strings.Contains(convertToString(spanValue), conditionValue)
+			return exists && !strings.Contains(convertToString(spanValue), conditionValue)
 		}
 	}
 
